@@ -212,17 +212,36 @@ def final_value(case, ctx):
     asig = ctx.lib(eqsig.AccSignal, arg, dt)
     v = np.asarray(ctx.lib(lambda: asig.velocity), dtype=float)
     _classify(ctx, case["rec"], a, v)
-    ctx.shape(v, (n,), "velocity")
+    _final_checks(ctx, asig, a, dt, "")
+    # the measures describe the record the signal holds NOW: repeat after the object's own in-place baseline corrections
+    # (velocity and peaks were read above, so a stale cache would show)
+    if n >= 3 and np.asarray(asig.values).dtype.kind == "f" and np.any(a) and np.all(np.abs(a) < 1e150):
+        for corr in ("set_zero_residual_velocity", "rebase_displacement"):
+            try:
+                getattr(asig, corr)()
+            except Exception:  # noqa  (which records a correction accepts is not C09's business)
+                break
+            cur = np.array(asig.values, dtype=float)
+            if not np.all(np.isfinite(cur)):
+                break
+            ctx.cls("after-correction")
+            _final_checks(ctx, asig, cur, dt, " after %s()" % corr)
+
+
+def _final_checks(ctx, asig, a, dt, tag):
+    n = len(a)
+    v = np.asarray(ctx.lib(lambda: asig.velocity), dtype=float)
+    ctx.shape(v, (n,), "velocity" + tag)
     vref, vb = _ref_velocity(a, dt)
-    ctx.close(v, vref, vb, "velocity vs long-double cumulative trapezoid")
+    ctx.close(v, vref, vb, "velocity vs long-double cumulative trapezoid" + tag)
     refs = _reference(a, v, dt)
     for name, fn, _inp, _deg in MEASURES:
         s = _series(ctx, fn, asig, name)
-        ctx.shape(s, (n,), "%s series" % name)
-        variants = _match_final(ctx, name, s[-1], refs[name])
+        ctx.shape(s, (n,), "%s series%s" % (name, tag))
+        variants = _match_final(ctx, name, s[-1], refs[name], what=tag)
         firsts = [_first_value(name, variant, a, dt) for variant in variants]
-        ctx.check(any(abs(s[0] - f0) <= EPS * abs(f0) for f0 in firsts), "%s: first value %r, expected %r (%s)" % (
-            name, s[0], firsts[0], variants[0]))
+        ctx.check(any(abs(s[0] - f0) <= EPS * abs(f0) for f0 in firsts), "%s%s: first value %r, expected %r (%s)" % (
+            name, tag, s[0], firsts[0], variants[0]))
 
 
 # ---------------------------------------------------------------------------
